@@ -294,6 +294,16 @@ func (st *State) callCommon(c *ssa.CallCommon, fnv Val, args []Val, site ssa.Ins
 // arguments, keeps library state (frame assumption "user callbacks do not touch unexported library state").
 func (st *State) callUnknown(c *ssa.CallCommon, fnv Val, args []Val, site ssa.Instruction) Val {
 	vc := st.vc
+	// function-type contracts: "functype <Named func type>" -- what every value of that type does when called (the library's own closures
+	// of that type are verified against it; the type's values cannot be built outside the library when it mentions unexported types)
+	if n, ok := types.Unalias(c.Value.Type()).(*types.Named); ok {
+		if fc := vc.cs.Ifaces[qualifiedName(n)+".call"]; fc != nil {
+			if tv, ok := fnv.(TV); ok {
+				st.nilCheck(tv.T, fmt.Sprintf("call-nil-func#%d", vc.ordinals[site]), "called function value")
+			}
+			return st.applyFuncType(fc, c, args, site)
+		}
+	}
 	vc.assumptionsUsed["user callbacks (function values supplied by the client) do not write library state except through the arguments passed to them"] = true
 	if tv, ok := fnv.(TV); ok {
 		st.nilCheck(tv.T, fmt.Sprintf("call-nil-func#%d", vc.ordinals[site]), "called function value")
@@ -961,4 +971,59 @@ func frameRecovers(f *ssa.Function) bool {
 		}
 	}
 	return false
+}
+
+// applyFuncType: a call through a value of a named function type that has a contract.
+func (st *State) applyFuncType(fc *FuncContract, c *ssa.CallCommon, args []Val, site ssa.Instruction) Val {
+	vc := st.vc
+	vc.usedContracts["functype "+fc.Key] = true
+	names := map[string]Val{}
+	for i, a := range args {
+		names[fmt.Sprintf("arg%d", i)] = a
+	}
+	sig := c.Signature()
+	for i := 0; i < sig.Params().Len() && i < len(args); i++ {
+		if n := sig.Params().At(i).Name(); n != "" && n != "_" {
+			names[n] = args[i]
+		}
+	}
+	tenv := vc.tparamEnv(vc.fn)
+	siteLabel := fmt.Sprintf("%s#%d", fc.Key, vc.ordinals[site])
+	for i, cl := range fc.clauses("requires") {
+		e, err := cl.expr()
+		if err != nil {
+			fail("%v", err)
+		}
+		ec := &EvalCtx{st: st, names: names, pkg: vc.fn.Pkg.Pkg, tparams: tenv}
+		for gi, g := range ec.evalConjuncts(e) {
+			st.oblige("pre", fmt.Sprintf("%s.%d@%s", clauseLabel(cl, i), gi+1, siteLabel), g.t, g.text)
+		}
+	}
+	oldHeap := make(map[string]Term, len(st.heap))
+	for k, v := range st.heap {
+		oldHeap[k] = v
+	}
+	var tgts []string
+	for _, cl := range fc.clauses("modifies") {
+		tgts = append(tgts, splitTargets(cl.Text)...)
+	}
+	(&EvalCtx{st: st, names: names, pkg: vc.fn.Pkg.Pkg, tparams: tenv}).havocTargets(tgts)
+	k := "G:$usercalls"
+	vc.setKeySort(k, SInt)
+	st.set(k, tAdd(st.get(k), tInt(1)))
+	res := st.freshResults(sig.Results(), "ftret")
+	rnames := copyNames(names)
+	rnames["result"] = res
+	saved := st.old
+	st.old = oldHeap
+	for _, cl := range fc.clauses("ensures") {
+		e, err := cl.expr()
+		if err != nil {
+			fail("%v", err)
+		}
+		st.assume((&EvalCtx{st: st, names: rnames, pkg: vc.fn.Pkg.Pkg, tparams: tenv, callee: true}).evalBool(e))
+	}
+	st.old = saved
+	st.resultsAllocated(res, sig.Results())
+	return res
 }
